@@ -525,7 +525,7 @@ async fn schedule_task(
 }
 //!end
 
-//!fn src/app/run.rs process_task_results rules=R1,R7,R10 props=C04,C06,C15
+//!fn src/app/run.rs process_task_results rules=R1,R7,R10 props=C04,C06,C15,C05
 async fn process_task_results(
     js__0: tokio::task::JoinSet<Result<CommandTaskFinishInfo, CommandTaskCancelInfo>>,
     target_group: &[PlanTarget],
@@ -564,8 +564,12 @@ async fn process_task_results(
 @    let ghost mut trb = w.trace;
 @    let ghost mut pb = js.pending;
 @    let ghost mut bjb = w.bad_joins;
+@    let ghost mut okj: Set<int> = Set::empty();
     while let Some(join_res) = js.join_next(Tracked(w)).await
 @        invariant
+@            // C05: every task whose future completed (whatever it reports: success, a non-zero exit, a task error such as a cancelled
+@            // log reader) has its entry in the group's result table - a planned (command, target) pair never goes missing
+@            forall|t: int| #![trigger okj.contains(t)] okj.contains(t) ==> 0 <= t < target_group@.len() && result_target_group@.dom().contains(target_group@[t].path@), // [C05]
 @            trb == w.trace, pb == js.pending, bjb == w.bad_joins, w.fail_point == old(w).fail_point,
 @            w.cur_c == c, w.cur_g == g, c == old(w).cur_c, g == old(w).cur_g, tr0 == old(w).trace, bj0 == old(w).bad_joins,
 @            w.grp_begin == b, w.sched_end == e, b == old(w).grp_begin, e == old(w).sched_end,
@@ -587,6 +591,7 @@ async fn process_task_results(
 @                && (join_res matches Ok(v) ==> v.tid() == t && w.bad_joins == bjb + (if v.bad() { 1nat } else { 0nat }))
 @                && (join_res matches Err(er) ==> js.ids.dom().contains(er.i) && js.ids[er.i] == t && w.bad_joins == bjb);
 @            tj = t;
+@            if join_res is Ok { okj = okj.insert(t); }
 @            lemma_push_exit(trb, Ev::Exit { c, g, t });
 @            lemma_drain_step(trb, b, e, c, g, pb, t);
 @            trb = w.trace; pb = js.pending; bjb = w.bad_joins;
